@@ -103,6 +103,18 @@ func writerKeywordTables(p *Program, pkgSuffix string) []*kwTable {
 				}
 				t.pairs = append(t.pairs, kwPair{tok, f, pos})
 			}
+			inIf := map[ast.Node]bool{}
+			ast.Inspect(fd.Body, func(n ast.Node) bool {
+				if ifs, ok := n.(*ast.IfStmt); ok {
+					ast.Inspect(ifs.Body, func(m ast.Node) bool {
+						if es, ok := m.(*ast.ExprStmt); ok {
+							inIf[es] = true
+						}
+						return true
+					})
+				}
+				return true
+			})
 			ast.Inspect(fd.Body, func(n ast.Node) bool {
 				switch x := n.(type) {
 				case *ast.CompositeLit:
@@ -120,6 +132,24 @@ func writerKeywordTables(p *Program, pkgSuffix string) []*kwTable {
 						}
 						for _, f := range moduleFieldsIn(pk, kv.Value) {
 							add(tok, f, kv.Pos())
+						}
+					}
+				case *ast.ExprStmt:
+					// `enc….Atom("TOKEN")….Number(data.F)`: token and data field in one statement
+					var toks []string
+					ast.Inspect(x, func(m ast.Node) bool {
+						if call, ok := m.(*ast.CallExpr); ok {
+							if se, ok := call.Fun.(*ast.SelectorExpr); ok && se.Sel.Name == "Atom" && len(call.Args) == 1 {
+								if tok, ok := constStringOf(pk, call.Args[0]); ok && tok != "" && tok != "*" {
+									toks = append(toks, tok)
+								}
+							}
+						}
+						return true
+					})
+					if len(toks) == 1 && inIf[x] {
+						for _, f := range moduleFieldsIn(pk, x) {
+							add(toks[0], f, x.Pos())
 						}
 					}
 				case *ast.IfStmt:
@@ -209,6 +239,17 @@ func readerKeywordSwitches(p *Program, pkgSuffix string) []*kwSwitch {
 						_ = st
 					}
 				}
+			case *ast.UnaryExpr:
+				// &x.F handed to a decoder call fills the field
+				if x.Op == token.AND {
+					if se, ok := x.X.(*ast.SelectorExpr); ok {
+						if sel := pk.TypesInfo.Selections[se]; sel != nil && sel.Kind() == types.FieldVal {
+							if v, ok := sel.Obj().(*types.Var); ok && v.Pkg() != nil && inModule2(v.Pkg().Path()) {
+								out[v] = true
+							}
+						}
+					}
+				}
 			case *ast.CompositeLit:
 				// &T{F: …} built in the case: its keyed fields are being set
 				if _, ok := pk.TypesInfo.TypeOf(x).Underlying().(*types.Struct); ok {
@@ -267,6 +308,32 @@ func readerKeywordSwitches(p *Program, pkgSuffix string) []*kwSwitch {
 						}
 					}
 				}
+				// `x.F = name == "TOKEN"` elsewhere in the same function is a case of the same table
+				ast.Inspect(fd.Body, func(m ast.Node) bool {
+					as, ok := m.(*ast.AssignStmt)
+					if !ok || len(as.Lhs) != 1 || len(as.Rhs) != 1 {
+						return true
+					}
+					be, ok := as.Rhs[0].(*ast.BinaryExpr)
+					if !ok || be.Op != token.EQL {
+						return true
+					}
+					tok, ok := constStringOf(pk, be.Y)
+					if !ok {
+						return true
+					}
+					if se, ok := as.Lhs[0].(*ast.SelectorExpr); ok {
+						if sel := pk.TypesInfo.Selections[se]; sel != nil && sel.Kind() == types.FieldVal {
+							if v, ok := sel.Obj().(*types.Var); ok {
+								if ks.cases[tok] == nil {
+									ks.cases[tok] = map[*types.Var]bool{}
+								}
+								ks.cases[tok][v] = true
+							}
+						}
+					}
+					return true
+				})
 				if len(ks.cases) >= 2 {
 					out = append(out, ks)
 				}
